@@ -197,9 +197,48 @@ def run_path_case(case):
     return out
 
 
+ATTR_NAMES = ['size', 'copy', 'nbytes', 'eval', 'values', 'lags', 'reindex']
+
+
+def run_name_case(case):
+    """Key-based paths on a variable whose name coincides with an attribute or method of the object
+    (attribute access is excluded for such names: the class attribute wins by construction)."""
+    kind, n, obj, name, i = case['span'], case['n'], case['obj'], case['name'], case['i']
+    c, labels = make(kind, n, obj)
+    try:
+        c.add_variable(name, [2.5 + k for k in range(n)], dtype=float)
+    except Exception:
+        return []
+    label = labels[i]
+    out = []
+    c[name, label] = SENTINEL
+    want = np.array([2.5 + k for k in range(n)])
+    want[i] = SENTINEL
+    reads = {'key': lambda: c[name], 'key_pos': lambda: c[name][i], 'label': lambda: c[name, label]}
+    if label is not None:
+        reads['label_slice'] = lambda: c[name, label:label]
+    for rp, fn in reads.items():
+        try:
+            got = fn()
+        except Exception as e:
+            got = e
+        exp = want if rp == 'key' else (want[i:i + 1] if rp == 'label_slice' else want[i])
+        if isinstance(got, Exception) or not same(got, exp):
+            out.append(('attribute-like-name:%s' % rp, np.asarray(exp).tolist(), repr(got)[:80], 'a variable named %r is not read back through %s' % (name, rp)))
+    return out
+
+
 def run_block(block, tier, seed):
     acc = Acc()
     kind, n, obj = block['span'], block['n'], block['obj']
+    if n == 3:
+        for name in ATTR_NAMES:
+            for i in range(n):
+                case = dict(kind='name', span=kind, n=n, obj=obj, name=name, i=i)
+                acc.evaluations += 1
+                acc.nontrivial += 1
+                for key, exp, obs, what in safe(run_name_case, case, acc):
+                    acc.violation(key, case, exp, obs, what)
     _, labels = spans.make(kind, n)
     choices = list(range(n)) + ['absent']
     for i in choices:
@@ -241,7 +280,7 @@ def safe(fn, case, acc):
 
 
 def run_one(case):
-    fn = {'label': run_label_case, 'slice': run_slice_case, 'path': run_path_case}[case['kind']]
+    fn = {'label': run_label_case, 'slice': run_slice_case, 'path': run_path_case, 'name': run_name_case}[case['kind']]
     try:
         return fn(case)
     except Exception as e:
